@@ -10,7 +10,7 @@ EXPLANATION = ("Every tree-entry comparator (Ord for tree::EntryRef, Ord for tre
                "byte constant, b'/', and the mode's is_tree predicate (the editor: its is_tree argument for the probe side); the three callee "
                "multisets must be equal up to deref noise. TreeRef::bisect_entry must search with <EntryRef as Ord>::cmp against a probe whose mode is "
                "Tree on is_dir and Blob otherwise. The tree editor keeps trees sorted by inserting at a binary-search index: some decision in that index computation must derive from "
-               "the kind of the inserted entry (argument kind_and_id, captures resolved through nested closures), and it re-sorts after type changes. That this order is git's for all names is by construction of base_name_compare and not re-proved.")
+               "the kind of the inserted entry (argument kind_and_id, captures resolved through nested closures), and it re-sorts after type changes. That this order is git's for all names is by construction of base_name_compare and not re-proved. Comparator closures of every search/sort over tree entries in gix_object::tree decide through the entry ordering, never through a plain byte comparison of names.")
 COMPARATORS = [(r"^<gix_object::tree::EntryRef<'_> as core::cmp::Ord>::cmp$", 2), (r"^<gix_object::tree::Entry as core::cmp::Ord>::cmp$", 2), (r"^gix_object::tree::editor::cmp_entry_with_name$", 1)]
 SHAPE = {"len": 2, "min": 1, "index": 2, "cmp": 2, "then_with": 1, "get": 2, "or_else": 2, "then_some": 2}
 
@@ -34,6 +34,7 @@ def shape(db, f):
 
 def run(db, chk):
     editor_insertion_rule(db, chk)
+    one_comparator_rule(db, chk)
     sigs = {}
     for pat, ntree in COMPARATORS:
         f = db.one(pat)
@@ -130,3 +131,47 @@ def editor_insertion_rule(db, chk):
     # the editor re-sorts after type changes and the sort uses the canonical comparator
     sorts = [c for c in top.calls() if c.is_(r"::sort$|::sort_by$|::sort_unstable$")]
     chk.floor("editor: re-sort after a type change", len(sorts), 1)
+
+
+def one_comparator_rule(db, chk):
+    """tree entries are ordered as if directories had a trailing slash, so two names cannot be compared as plain byte strings - not even two
+    directories (`gix-object/` < `gix/` but `gix` < `gix-object`).  Every comparator closure handed to a binary search or a sort over tree
+    entries in gix_object::tree therefore decides through the entry ordering itself (<Entry/EntryRef as Ord>::cmp or the editor's
+    cmp_entry_with_name); a plain `BStr`/`[u8]` comparison of file names inside such a closure is a shortcut that is wrong for some pair."""
+    SEARCH = r"::binary_search_by$|::sort_by$|::sort_unstable_by$|::binary_search_by_key$|::partition_point$|::is_sorted_by$"
+    PLAIN = r"impl core::cmp::Ord for bstr::bstr::BStr>::cmp$|impl core::cmp::Ord for bstr::bstring::BString>::cmp$|core::slice::cmp::<impl core::cmp::Ord for \[T\]>::cmp$|<\[u8\] as core::cmp::Ord>::cmp$|::partial_cmp$"
+    fns = [f for f in db.by_crate["gix_object"] if f.kind != "promoted" and "::tree::" in f.name and "core::cmp::" not in f.name]
+    n = 0
+    for f in fns:
+        if f.kind == "closure":
+            continue
+        fl = Flow(f)
+        for c in f.calls():
+            if not c.is_(SEARCH) or len(c.args) < 2:
+                continue
+            recv = fl.roots(c.args[0], stop_named=False)
+            if not any((r[0] in ("arg", "var")) and any(".entries" == x for x in (r[2] if r[0] == "arg" else r[3])) for r in recv):
+                continue
+            names = set()
+            for a in c.args[1:]:
+                if "p" in a and isinstance(a["p"][0], int):
+                    seen, work = set(), [a["p"][0]]
+                    while work:
+                        l = work.pop()
+                        if l in seen:
+                            continue
+                        seen.add(l)
+                        for b2, s2, pl2, rv2, ln2, mc2 in f.assigns():
+                            if pl2 == [l]:
+                                if rv2[0] == "agg" and rv2[1] == "closure":
+                                    names.add(rv2[2])
+                                elif rv2[0] == "use" and "p" in rv2[1] and isinstance(rv2[1]["p"][0], int):
+                                    work.append(rv2[1]["p"][0])
+            clos = [g for g in db.closures_of(f) if g.name in names]
+            for g in clos:
+                n += 1
+                plain = [x for x in g.calls() if x.is_(PLAIN)]
+                chk.ob("tree-entries-compared-by-entry-order", "%s %s@%d" % (f.name.split("::")[-1], c.name.split("::")[-1], c.line), not plain,
+                       "the comparator compares file names as plain bytes (%s) on some path: directories order by `name/`, so e.g. `gix-object` is not found next to `gix`" % [x.name.split("::")[-1] for x in plain][:2],
+                       c.where(), key="tree-comparator|%s" % f.name.split("::")[-1])
+    chk.floor("searches/sorts over tree entries with a comparator closure", n, 2)
